@@ -830,7 +830,13 @@ fn gen_system(ch: &mut Chooser) -> System {
     let xstar: Vec<f32> = (0..n)
         .map(|_| {
             if exact {
-                ch.float_sym("xstar_e", 2.0, 8) // multiples of 1/4
+                // multiples of 1/4, never exactly zero: towards a zero
+                // component the solver's iterates shrink geometrically
+                // without ever comparing equal, and its exit criteria let it
+                // crawl for minutes before returning the (correct) result
+                // (DESIGN 11.3 item 10)
+                let v = ch.float_sym("xstar_e", 2.0, 8);
+                if v == 0.0 { 0.25 } else { v }
             } else {
                 ch.float_sym("xstar", 2.0, 50)
             }
@@ -962,6 +968,12 @@ pub fn run_c19(st: &Shared, _tier: Tier) -> RunReport {
         sys.rows.first()
     );
     rep.count("fault.fresh_hash_keys_and_var_ids", 1);
+    if std::env::var("VERIF_DEBUG").is_ok() {
+        eprintln!(
+            "C19 system: n={} free={:?}\n xstar={:?}\n rows={:?}\n b={:?}",
+            sys.n, sys.free, sys.xstar, sys.rows, sys.b
+        );
+    }
     // equations as expression nodes: sum a_ij * v_j - b_i
     let mut ctx = Context::new();
     let mut build = |ctx: &mut Context, b: &[f32]| -> Vec<Node> {
